@@ -21,6 +21,7 @@ import logging
 import os
 import subprocess
 import sys
+import time
 import warnings
 from typing import Any, Dict, List, Optional, Tuple
 
@@ -190,8 +191,18 @@ def gen_case(rng: np.random.Generator, edge: bool = False, nmax: int = 3000) -> 
     kinds = ["zero", "const"] if (edge and rng.random() < 0.6) else ["noise", "offset", "drift", "red", "tone"]
     p = {"dseed": int(rng.integers(0, 2 ** 31 - 1)), "N": N, "fs": fs, "cross": cross, "kind": str(rng.choice(kinds)),
          "kind2": str(rng.choice(kinds)), "layout": str(rng.choice(["2xN", "Nx2"])), "opts": o}
-    if p["opts"].get("force_target_nf") and N > 700:          # the Jdes search calls the scheduler ~20 times per fresh analyzer
-        p["N"] = int(rng.integers(150, 700))
+    if p["opts"].get("force_target_nf"):
+        if N > 700:                                           # the Jdes search calls the scheduler ~20 times per fresh analyzer
+            p["N"] = int(rng.integers(150, 700))
+        if rng.random() < 0.8:                                # mostly a bin count some Jdes really produces (the search wants an exact match)
+            q = copy.deepcopy(p)
+            q["opts"].pop("force_target_nf")
+            q["opts"].pop("band", None)
+            with quiet():
+                try:
+                    p["opts"]["Jdes"] = int(len(mk_analyzer(q).plan()["f"]))
+                except Exception:
+                    pass
     return p
 
 
@@ -453,8 +464,14 @@ def check_attrs(p: Dict[str, Any]) -> Tuple[List[Dict[str, Any]], Dict[str, Any]
     info["ok"] = True
     pristine = copy.deepcopy(dict(res._data))                 # before ANY attribute access
     base0 = {k: sig(v) for k, v in pristine.items()}
-    plan0 = None if an is None else {k: sig(an.plan().get(k)) for k in PLAN_KEYS}
-    raw0 = None if (an is None or p["source"] != "compute") else out_sigs(("ok", "result", clone(res, pristine)))
+    plan0 = None
+    if an is not None:
+        with quiet():
+            try:
+                plan0 = {k: sig(an.plan().get(k)) for k in PLAN_KEYS}
+            except Exception:
+                plan0 = None
+    raw0 = None if (an is None or plan0 is None or p["source"] != "compute") else out_sigs(("ok", "result", clone(res, pristine)))
     names = attr_names(res)
     info["names"] = len(names)
     rng = np.random.default_rng([int(p["pseed"]), 143])
@@ -503,7 +520,7 @@ def check_attrs(p: Dict[str, Any]) -> Tuple[List[Dict[str, Any]], Dict[str, Any]
     for k in base0:
         if k in A._data and sig(A._data[k]) != base0[k]:
             bad.append({"name": k, "how": "base array modified in place by attribute access", "detail": diff(pristine[k], A._data[k]), "mutated": True})
-    if an is not None:
+    if an is not None and plan0 is not None:
         pl = an.plan()
         for k in PLAN_KEYS:
             if sig(pl.get(k)) != plan0[k]:
@@ -545,8 +562,6 @@ def check_isolation(p: Dict[str, Any], child: Optional[List[Dict[str, str]]] = N
         if r[0] != "ok":
             continue
         o = case["opts"]
-        if not isinstance(o.get("win"), str) or o.get("olap") == "default":
-            pass
         x1, x2 = channels(case)
         nf = len(r[2].f)
         bins = sorted(set(int(i) for i in rngb.integers(0, nf, size=min(nf, int(p.get("ref_bins", 4))))))
@@ -811,8 +826,9 @@ def correspondence(ctx) -> C.Part:
     P = C.Part()
     rng = ctx.rng
     n_hist = ctx.scale(14, 150)
+    t_end = time.time() + min(ctx.time_left() - 30.0, 240.0 if ctx.thorough else 25.0)
     for i in range(n_hist):
-        if ctx.time_left() < 150 if not ctx.thorough else ctx.time_left() < 600:
+        if time.time() > t_end:
             P.notes.append("time budget reached (history)")
             break
         c = gen_case(rng, edge=(i % 6 == 5))
@@ -846,23 +862,19 @@ def oracle(ctx, intensive: bool = False, hints: List[Dict[str, Any]] = ()) -> C.
     rng = ctx.rng
     mult = 4 if intensive else 1
     reserve = 15.0
+    t_end = time.time() + min(ctx.time_left() - reserve, (700.0 if ctx.thorough else 60.0) * (2 if intensive else 1))
 
     def out_of_time() -> bool:
-        if ctx.time_left() < reserve:
+        if time.time() > t_end:
             if "time budget reached" not in P.notes:
                 P.notes.append("time budget reached")
             return True
         return len(P.violations) >= 8
 
     # clean-interpreter runs are started first and collected at the end (they cost no wall time that way)
-    iso = []
     n_iso = ctx.scale(6, 36) * mult
-    for i in range(n_iso):
-        iso.append(gen_isolation(rng, ISO_VARIANTS[i % len(ISO_VARIANTS)] if i < len(ISO_VARIANTS) or rng.random() < 0.5 else str(rng.choice(ISO_VARIANTS)),
-                                 single=(i % 5 == 4)))
-    if n_iso < len(ISO_VARIANTS):          # quick tier: the variants are drawn, not enumerated, so that every seed covers different ones
-        order = [ISO_VARIANTS[k] for k in rng.permutation(len(ISO_VARIANTS))]
-        iso = [gen_isolation(rng, order[i % len(order)], single=(i % 5 == 4)) for i in range(n_iso)]
+    vorder = [ISO_VARIANTS[k] for k in rng.permutation(len(ISO_VARIANTS))]      # drawn, so that every seed covers different variants first
+    iso = [gen_isolation(rng, vorder[i % len(vorder)], single=(i % 5 == 4)) for i in range(n_iso)]
     n_child = min(len(iso), ctx.scale(3, 10) * mult)
     children = []
     try:
@@ -958,7 +970,13 @@ def replay(ctx, data) -> C.Part:
     for v in data.get("violations", []):
         p = (v.get("replay") or {}).get("payload")
         if isinstance(p, dict) and p.get("check") in CHECKS:
-            run_payload(P, p)
+            child = None
+            if p["check"] == "isolation":
+                try:
+                    child = reap_child(spawn_child([{"case": p["B"], "op": iso_ops(p)}, {"case": p["A"], "op": iso_ops(p)}]), 120.0)
+                except Exception:
+                    child = None
+            run_payload(P, p, child=child)
     for b in data.get("broken_obligations", []):
         p = (b.get("case") or {}).get("oracle_payload") if isinstance(b, dict) else None
         if isinstance(p, dict) and p.get("check") in CHECKS:
